@@ -1,5 +1,6 @@
 import NeumannModel.KV.Lemmas
 import NeumannModel.KV.EmbLemmas
+import NeumannModel.KV.DurLemmas
 /-
   C11 — concurrent store operations behave as if executed one at a time.
 
@@ -224,33 +225,76 @@ example : NoEmbOverlap false embMixtureProgs embMixtureSched = false := by decid
 
 /-! ### durable writes: logged and applied under the log mutex -/
 
-/-- THE STATEMENT, over a step machine `run`: for durable writers (`Op.simpleDurable`), once every thread has finished,
-    the store recovered from the log shows every key (get, exists, membership in scan) exactly as
-    the in-memory store does. -/
+/-- FULL STRENGTH, with or without the log, every number of threads, every program, every schedule:
+    operations of every kind - put / get / delete / exists / scan AND `put_durable` /
+    `delete_durable` - on keys of every class but `emb:` (any byte strings, any values), scan
+    prefixes with an end key.  A durable write of a plain / graph / table key is two atomic steps
+    (append to the log, apply in memory; the mutex is held in between) and other threads' reads
+    and non-durable writes of the same key run between them.  The history, IN THE ORDER OF THE
+    LAST STEPS, is a legal sequential execution with every result exactly the specification's; that
+    order respects real time; the live store is at every moment the specification applied to the
+    completed operations (a write that is logged and not yet applied is invisible to every reader);
+    so the history is linearizable - the linearization point of a durable write is its in-memory
+    apply. -/
+theorem durable_ops_linearizable (walOn : Bool) (progs : List ThreadProgram) (sched : List Nat)
+    (h : ∀ p ∈ progs, ∀ op ∈ p, op.noEmb = true ∧ op.scanBounded = true) :
+    let r := runSched walOn progs sched
+    SeqStrict [] r.hist ∧ SeqValid [] r.hist ∧
+    (∀ x ∈ r.hist, x.inv ≤ x.ret) ∧ r.hist.Pairwise (fun a b => a.ret < b.ret) ∧
+    RespectsRealTime r.hist ∧
+    Abs r.store (specRun [] (r.hist.map (·.op))) ∧
+    Linearizable r.hist := by
+  have inv : DInv (runSched walOn progs sched) := (DInv.init walOn progs h).run sched
+  exact ⟨inv.strict, inv.strict.valid, fun x hx => (inv.times x hx).1, inv.sorted, inv.realTime,
+    inv.abs, inv.linearizable⟩
+
+/-- non-vacuity: with the log on, thread 0 puts `user:1` durably; between its log step and its
+    apply thread 1 reads the key (absent: the logged write is not visible yet) and thread 2 puts it
+    non-durably; thread 0 applies (overwrites), thread 1 reads again; thread 1's `put_durable` is
+    granted while thread 0 holds the mutex and does not move -/
+example :
+    (∀ p ∈ ([[.putD kP1 ⟨1, .none⟩], [.get kP1, .get kP1, .putD kP1 ⟨3, .none⟩], [.put kP1 ⟨2, .none⟩, .scan pfxUser]]
+        : List ThreadProgram), ∀ op ∈ p, op.noEmb = true ∧ op.scanBounded = true) ∧
+    (runSched true [[.putD kP1 ⟨1, .none⟩], [.get kP1, .get kP1, .putD kP1 ⟨3, .none⟩], [.put kP1 ⟨2, .none⟩, .scan pfxUser]]
+        [0, 1, 2, 2, 1, 1, 0, 1, 1]).hist.map (fun r => (r.t, r.i, r.res, r.inv, r.ret))
+      = [(1, 0, .notFound, 1, 1), (2, 0, .ok, 2, 2), (2, 1, .keys [kP1], 3, 3), (1, 1, .found ⟨2, .none⟩, 4, 4),
+         (0, 0, .ok, 0, 5), (1, 2, .ok, 6, 7)] := by decide
+
+/-- THE STATEMENT, over a step machine `run`: for durable writers of keys of every class but the
+    cache (`put_durable` of any value, `delete_durable`) and readers (`Op.durableOrRead`), once every
+    thread has finished, the store recovered from the log shows every key (get, exists,
+    membership in scan) exactly as the in-memory store does. -/
 def DurableOrderEqMemoryOrder (run : Bool → List ThreadProgram → List Nat → Sys) : Prop :=
   ∀ (progs : List ThreadProgram) (sched : List Nat),
-    (∀ p ∈ progs, ∀ op ∈ p, op.simpleDurable = true) →
+    (∀ p ∈ progs, ∀ op ∈ p, op.durableOrRead = true) →
     quiescent (run true progs sched) = true →
     ∀ k, view (recover (run true progs sched).store.wal) k = view (run true progs sched).store k
 
 /-- FULL STRENGTH for the current code (repo dfea2ecb: the log mutex is held from the log step to
     the end of the in-memory apply; `runSched` = the interleaving in which a thread about to log
-    while another holds the mutex does not move).  For every number of durable writers —
-    `put_durable` of vector-free values and `delete_durable` — of ANY, also the same, plain / graph /
-    table keys and every interleaving: once every thread has finished, the store recovered from
-    the log shows every key exactly as memory does.  In every reachable state at most one thread is
-    between its log step and its apply, and the replayed log equals memory on every key but that
-    thread's, where it already holds the logged effect (`LInv`). -/
+    while another holds the mutex does not move).  For every number of durable writers -
+    `put_durable` of ANY value (with or without a vector, of the right or a wrong dimension) and
+    `delete_durable` - of ANY, also the same, keys of the plain / graph / table / `emb:` classes
+    (any byte strings; an `emb:` write is four atomic steps: log, entity index, embedding slab,
+    metadata), with any number of concurrent readers (get / exists / scan of any key and prefix,
+    which interleave with the sub-steps), and every interleaving: once every thread has finished,
+    the store recovered from the log shows every key exactly as memory does.  In every reachable
+    state at most one thread is between its log step and the end of its write, and the log replays
+    to the slabs that thread will have produced when it has run to its end (`RInv`; the records of a
+    write are exactly those whose replay is its in-memory effect, `logStep_replay`). -/
 theorem durable_order_eq_memory_order : DurableOrderEqMemoryOrder runSched := by
-  intro progs sched h hq
-  have inv : LInv (runSched true progs sched) := (LInv.init progs h).run sched
-  intro k
-  exact view_of_shape (recover _) _ k inv.rshape inv.shape (inv.quiescent_agree hq k)
+  intro progs sched h hq k
+  have inv : RInv (runSched true progs sched) := (RInv.init progs h).run sched
+  have heq : SlabsEq (recover (runSched true progs sched).store.wal) (runSched true progs sched).store :=
+    inv.quiescent_eq hq
+  have hc : (recover (runSched true progs sched).store.wal).cache = (runSched true progs sched).store.cache := by
+    rw [inv.cache]; exact replay_cache _
+  exact (reads_congr heq hc k).1
 
 /-- non-vacuity: the two contended writers of the witness; under the mutex the schedule
     A-log, B-log(blocked), B(blocked), A-apply, B-log, B-apply finishes with log order = apply order -/
 example :
-    (∀ p ∈ durableOrderProgs, ∀ op ∈ p, op.simpleDurable = true) ∧
+    (∀ p ∈ durableOrderProgs, ∀ op ∈ p, op.durableOrRead = true) ∧
     quiescent (runSched true durableOrderProgs [0, 1, 1, 0, 1, 1]) = true ∧
     (runSched true durableOrderProgs [0, 1, 1, 0, 1, 1]).store.wal
       = [.metaSet kP1 ⟨1, .none⟩, .metaSet kP1 ⟨2, .none⟩] ∧
@@ -260,13 +304,31 @@ example :
     is between the log step and the apply of its delete and does not move -/
 example :
     (∀ p ∈ ([[.putD kP1 ⟨1, .none⟩, .delD kP1], [.putD kP1 ⟨2, .none⟩]] : List ThreadProgram),
-      ∀ op ∈ p, op.simpleDurable = true) ∧
+      ∀ op ∈ p, op.durableOrRead = true) ∧
     quiescent (runSched true [[.putD kP1 ⟨1, .none⟩, .delD kP1], [.putD kP1 ⟨2, .none⟩]]
       [0, 0, 0, 1, 1, 0, 1, 1]) = true ∧
     (runSched true [[.putD kP1 ⟨1, .none⟩, .delD kP1], [.putD kP1 ⟨2, .none⟩]]
       [0, 0, 0, 1, 1, 0, 1, 1]).store.wal = [.metaSet kP1 ⟨1, .none⟩, .metaDel kP1, .metaSet kP1 ⟨2, .none⟩] ∧
     (runSched true [[.putD kP1 ⟨1, .none⟩, .delD kP1], [.putD kP1 ⟨2, .none⟩]]
       [0, 0, 0, 1, 1, 0, 1, 1]).store.md = [(kP1, ⟨2, .none⟩)] := by decide
+
+/-- non-vacuity with `emb:` keys, vectors and readers: two threads write `emb:1` (a 384-vector, a
+    vector of another dimension, a delete, a value without vector), a third `user:1` with a vector,
+    a `get` of `emb:1` and a scan interleave with the sub-steps; the second and third pick (threads 1
+    and 2 at the entry of `put_durable` while thread 0 holds the mutex) are no-ops -/
+example :
+    (∀ p ∈ ([[.putD kE1 ⟨1, .good 1⟩, .delD kE1, .putD kE1 ⟨3, .none⟩], [.putD kE1 ⟨2, .bad 2⟩, .get kE1],
+        [.putD kP1 ⟨4, .good 4⟩, .scan []]] : List ThreadProgram), ∀ op ∈ p, op.durableOrRead = true) ∧
+    quiescent (runSched true [[.putD kE1 ⟨1, .good 1⟩, .delD kE1, .putD kE1 ⟨3, .none⟩], [.putD kE1 ⟨2, .bad 2⟩, .get kE1],
+        [.putD kP1 ⟨4, .good 4⟩, .scan []]] [0, 1, 2, 0, 0, 0, 1, 1, 1, 1, 2, 1, 2, 0, 1, 2, 0, 0, 0, 0, 0, 0, 0]) = true ∧
+    (runSched true [[.putD kE1 ⟨1, .good 1⟩, .delD kE1, .putD kE1 ⟨3, .none⟩], [.putD kE1 ⟨2, .bad 2⟩, .get kE1],
+        [.putD kP1 ⟨4, .good 4⟩, .scan []]] [0, 1, 2, 0, 0, 0, 1, 1, 1, 1, 2, 1, 2, 0, 1, 2, 0, 0, 0, 0, 0, 0, 0]).store.wal
+      = [.embSet 0 (.good 1), .metaSet kE1 ⟨1, .good 1⟩, .embSet 0 (.bad 2), .metaSet kE1 ⟨2, .bad 2⟩,
+         .metaSet kP1 ⟨4, .good 4⟩, .embDel 0, .entRemove kE1, .metaDel kE1, .metaSet kE1 ⟨3, .none⟩] ∧
+    (runSched true [[.putD kE1 ⟨1, .good 1⟩, .delD kE1, .putD kE1 ⟨3, .none⟩], [.putD kE1 ⟨2, .bad 2⟩, .get kE1],
+        [.putD kP1 ⟨4, .good 4⟩, .scan []]] [0, 1, 2, 0, 0, 0, 1, 1, 1, 1, 2, 1, 2, 0, 1, 2, 0, 0, 0, 0, 0, 0, 0]).hist.map (fun r => (r.t, r.i, r.res))
+      = [(0, 0, .ok), (1, 0, .ok), (2, 0, .ok), (1, 1, .found ⟨2, .bad 2⟩), (2, 1, .keys [kP1, kE1, kE1]),
+         (0, 1, .ok), (0, 2, .ok)] := by decide
 
 /-- THE CODE BEFORE dfea2ecb (`runSchedOld`: the mutex covered the log step only) did not have the
     property: A logs, B logs, B applies, A applies — the log ends with B's record, memory with A's
@@ -290,43 +352,38 @@ theorem durable_order_witness :
 
 /-! ### the recovered store is the live store (the durable clause in observable terms) -/
 
-/-- FULL STRENGTH, corollary of `durable_order_eq_memory_order` stated on what a client can observe.
-    For every number of threads, ALL programs of `put_durable` (vector-free values) and
-    `delete_durable` on plain / graph / table keys — of a present key, of a key that was never put, of
-    a key another thread is putting or deleting at that moment — and EVERY interleaving: once all
-    calls have returned, a store recovered from the log file alone (`SlabRouter::recover`, replay
-    over an empty store) answers `get`, `exists` and `scan` (every prefix) about EVERY key exactly
-    as the live store does, and holds the same metadata entry.  In particular every write that
-    took effect in memory has its record in the log, in the order in which the writes took effect:
-    `delete_durable` appends its `MetadataDelete` under the mutex whether or not the key is there
-    (`logDelete`); deciding that from an observation made before the mutex loses the property
+/-- FULL STRENGTH, `durable_order_eq_memory_order` stated on what a client can observe and on the
+    slabs themselves.  For every number of threads, ALL programs of `put_durable` (any value) and
+    `delete_durable` on plain / graph / table / `emb:` keys - of a present key, of a key that was never
+    put, of a key another thread is putting or deleting at that moment - and of readers, and EVERY
+    interleaving: once all calls have returned, a store recovered from the log file alone
+    (`SlabRouter::recover`, replay over an empty store) holds the same metadata slab, the same entity
+    index (every key under the same id, the same tombstones) and the same embedding slab as the live
+    store, and answers `get`, `exists` and `scan` (EVERY prefix, bounded or not: the same list) about
+    EVERY key exactly as the live store does.  In particular every write that took effect in memory
+    has its record in the log, in the order in which the writes took effect: `delete_durable`
+    appends its `MetadataDelete` under the mutex whether or not the key is there (`logDelete`);
+    deciding that from an observation made before the mutex loses the property
     (`delete_skip_if_absent_witness`). -/
 theorem recovered_eq_live (progs : List ThreadProgram) (sched : List Nat)
-    (h : ∀ p ∈ progs, ∀ op ∈ p, op.simpleDurable = true)
-    (hq : quiescent (runSched true progs sched) = true) (k : Key) :
+    (h : ∀ p ∈ progs, ∀ op ∈ p, op.durableOrRead = true)
+    (hq : quiescent (runSched true progs sched) = true) :
     let live := (runSched true progs sched).store
     let recovered := recover live.wal
-    (seqOp recovered (.get k)).2 = (seqOp live (.get k)).2 ∧
-    (seqOp recovered (.exists_ k)).2 = (seqOp live (.exists_ k)).2 ∧
-    (∀ p, k ∈ scanNow recovered p ↔ k ∈ scanNow live p) ∧
-    aget recovered.md k = aget live.md k := by
+    recovered.md = live.md ∧ recovered.vocab = live.vocab ∧ recovered.slab = live.slab ∧
+    recovered.cache = live.cache ∧
+    (∀ p, scanNow recovered p = scanNow live p) ∧
+    ∀ k, (seqOp recovered (.get k)).2 = (seqOp live (.get k)).2 ∧
+      (seqOp recovered (.exists_ k)).2 = (seqOp live (.exists_ k)).2 := by
   intro live recovered
-  have hv : view recovered k = view live k := durable_order_eq_memory_order progs sched h hq k
-  have inv : LInv (runSched true progs sched) := (LInv.init progs h).run sched
-  simp only [view, Prod.mk.injEq, decide_eq_decide] at hv
-  obtain ⟨hget, hex, hscan⟩ := hv
-  refine ⟨hget, ?_, ?_, inv.quiescent_agree hq k⟩
-  · simp only [seqOp, seqOpAux, stepOp, hex]
-  · intro p
-    have hmd := inv.quiescent_agree hq k
-    obtain ⟨v1, _, c1⟩ := inv.shape
-    obtain ⟨v2, _, c2⟩ := inv.rshape
-    have e1 : live.vocab = [] := v1
-    have e2 : live.cache = [] := c1
-    have e3 : recovered.vocab = [] := v2
-    have e4 : recovered.cache = [] := c2
-    have e5 : aget recovered.md k = aget live.md k := hmd
-    rw [mem_scanNow_iff recovered p k, mem_scanNow_iff live p k, e1, e2, e3, e4, e5]
+  have inv : RInv (runSched true progs sched) := (RInv.init progs h).run sched
+  have heq : SlabsEq recovered live := inv.quiescent_eq hq
+  have hc : recovered.cache = live.cache := by
+    show (replay live.wal).cache = live.cache
+    rw [replay_cache]; exact inv.cache.symm
+  refine ⟨heq.1, heq.2.1, heq.2.2, hc, fun p => (reads_congr heq hc ⟨[]⟩).2.1 p, fun k => ?_⟩
+  obtain ⟨_, _, hex, hget⟩ := reads_congr heq hc k
+  exact ⟨hget, by simp only [seqOp, seqOpAux, stepOp, hex]⟩
 
 /-- non-vacuity: the hypotheses hold of the race the statement is about — `delete_durable user:1`
     of a key that is absent at the start is granted while `put_durable user:1` is between its log
@@ -334,7 +391,7 @@ theorem recovered_eq_live (progs : List ThreadProgram) (sched : List Nat)
     the value: the run is complete, memory and the recovered store both say "absent"; and of a
     three-thread put / put / delete run on one key that ends with the key present in both -/
 example :
-    (∀ p ∈ putDeleteAbsentProgs, ∀ op ∈ p, op.simpleDurable = true) ∧
+    (∀ p ∈ putDeleteAbsentProgs, ∀ op ∈ p, op.durableOrRead = true) ∧
     quiescent (runSched true putDeleteAbsentProgs putDeleteAbsentSched) = true ∧
     (runSched true putDeleteAbsentProgs putDeleteAbsentSched).hist.map (fun r => (r.t, r.res, r.inv, r.ret))
       = [(0, .ok, 0, 1), (1, .ok, 2, 3)] ∧
